@@ -129,7 +129,7 @@ def run(tier):
     exe_asan = vlib.build("asan")
     wd = vlib.workdir("c01")
     tr = os.path.join(wd, "samples.ndjson")
-    rc, out, err = vlib.run_harness(exe_asan, ["c01-samples", tr], timeout=3000)
+    rc, out, err = vlib.run_harness(exe_asan, ["c01-samples", tr, "4" if tier == "quick" else "24"], timeout=6000)
     if rc != 0:
         raise vlib.InfraError("c01-samples failed: " + err[-1500:])
     lines = judge(ck, "C01", tr, "samples", only_prefix=lambda c: not is_c07(c))
